@@ -49,6 +49,15 @@ def main(out):
     # greedy one-or-more of that class?
     if nis.match('ab*').end() != 2 or nis.match('*') is not None or nis.match('xa\\').end() != 2:
         raise TranslateError('NON_INLINE_START_RE is not a greedy C+')
+    # the hand-written override must still be the code that Model/Override.v mirrors (comments aside)
+    import ast, inspect, textwrap
+    src = ast.unparse(ast.parse(textwrap.dedent(inspect.getsource(P.Parser._read_non_inline_start))))
+    want = open(os.path.join(os.path.dirname(__file__), 'templates', 'read_non_inline_start.py.txt')).read()
+    if src != want:
+        raise TranslateError('Parser._read_non_inline_start differs from the code that Model/Override.v mirrors')
+    extra = [n for n in vars(P.Parser) if n.startswith('_read_') and n != '_read_non_inline_start']
+    if extra:
+        raise TranslateError('Parser overrides further rules: %s' % extra)
     txt = HEADER % 'gen_tables_parser.py'
     txt += f'Definition INDENT_C : N := {ord(P.INDENT)}.\nDefinition DEDENT_C : N := {ord(P.DEDENT)}.\n'
     txt += f'Definition default_indent_size : nat := {A.indent_size}%nat.\n'
